@@ -2437,7 +2437,8 @@ namespace ST
             const char *next = c_str();
             const char *endp = next + size();
             size_t splitlen = std::char_traits<char>::length(splitter);
-            while (max_splits) {
+            // An empty splitter never matches; the text is left whole
+            while (max_splits && splitlen) {
                 const char *sp = (cs == case_sensitive)
                         ? _ST_PRIVATE::find_cs(next, endp - next, splitter, splitlen)
                         : _ST_PRIVATE::find_ci(next, endp - next, splitter, splitlen);
@@ -2462,7 +2463,8 @@ namespace ST
 
             const char *next = c_str();
             const char *endp = next + size();
-            while (max_splits) {
+            // An empty splitter never matches; the text is left whole
+            while (max_splits && !splitter.empty()) {
                 const char *sp = (cs == case_sensitive)
                         ? _ST_PRIVATE::find_cs(next, endp - next, splitter.c_str(), splitter.size())
                         : _ST_PRIVATE::find_ci(next, endp - next, splitter.c_str(), splitter.size());
